@@ -397,6 +397,9 @@ pub enum Hostile {
     HttpGarbage { variant: u8 },
     /// partial request head, held open (thorough)
     HttpNeverTerminated,
+    /// `n` unterminated TCP connections opened at once and held open (thorough):
+    /// a server that serves connections one after the other would need n x 10 s
+    TcpUnterminatedBurst { n: u8 },
 }
 
 impl Hostile {
@@ -414,6 +417,7 @@ impl Hostile {
             Hostile::HttpUnknownEndpoint => "http-unknown-endpoint",
             Hostile::HttpGarbage { .. } => "http-garbage",
             Hostile::HttpNeverTerminated => "http-never-terminated",
+            Hostile::TcpUnterminatedBurst { .. } => "tcp-unterminated-burst",
         }
     }
 }
@@ -425,6 +429,8 @@ enum Plan {
     Raw { http: bool, bytes: Vec<u8>, half_close: bool, hold: bool },
     /// TactClient query that must not be answered with a document
     Tact(String),
+    /// n held connections with a partial line
+    Burst(u8),
 }
 
 fn plan(h: &Hostile) -> Plan {
@@ -506,6 +512,7 @@ fn plan(h: &Hostile) -> Plan {
             half_close: true,
             hold: false,
         },
+        Hostile::TcpUnterminatedBurst { n } => Plan::Burst(*n),
         Hostile::HttpNeverTerminated => Plan::Raw { http: true, bytes: format!("GET /{PROBE_PRODUCT}/versions HTTP/1.1\r\nHost:").into_bytes(), half_close: false, hold: true },
     }
 }
@@ -563,6 +570,16 @@ async fn hostile_client(list: Vec<Hostile>, tcp_port: u16, http_port: u16, held:
     for h in list {
         let r = match plan(&h) {
             Plan::Raw { http, bytes, half_close, hold } => raw_exchange(if http { http_port } else { tcp_port }, bytes, half_close, hold, held.clone()).await,
+            Plan::Burst(n) => {
+                let mut last = HostileResult::Held;
+                for _ in 0..n {
+                    match raw_exchange(tcp_port, b"v1/products/".to_vec(), false, true, held.clone()).await {
+                        HostileResult::Held => {}
+                        other => last = other,
+                    }
+                }
+                last
+            }
             Plan::Tact(endpoint) => {
                 if tact.is_none() {
                     tact = TactClient::new(format!("http://127.0.0.1:{http_port}"), false).ok();
